@@ -626,6 +626,11 @@ func (e *Engine) FuncsForProperty(prop string) []*ssa.Function {
 				return true
 			}
 		}
+		for _, t := range fc.LockBalancedTags {
+			if t == prop {
+				return true
+			}
+		}
 		for _, cs := range [][]*Clause{fc.Requires, fc.Ensures} {
 			for _, c := range cs {
 				if c.HasTag(prop) {
@@ -890,6 +895,11 @@ func (e *Engine) VerifyFunc(fn *ssa.Function) (vc *VC) {
 	if e.noSwallowActive(fc) {
 		st.ghost[noSwallowGhost] = TV{T: "false", S: "Bool", Ty: types.Typ[types.Bool]}
 	}
+	if e.lockBalancedActive(fc) {
+		f.lockBal = true
+		st.ghost[lockDepthGhost] = TV{T: "0", S: "Int", Ty: types.Typ[types.Int]}
+		vc.note("lockbalanced: calls of sync Lock/RLock and Unlock/RUnlock (deferred ones included) are counted on every path; every normal exit must leave the count where the entry found it; which mutex is locked is not distinguished, callees are not followed")
+	}
 	vc.obls = append(vc.obls, &Obl{Name: f.namePfx + "/cover/entry", Kind: "cover", Guard: st.alive, Goal: "true", Cover: true, Func: f.namePfx})
 	f.run(st, args)
 	if fc != nil {
@@ -1012,9 +1022,51 @@ func (e *Engine) VerifyFunc(fn *ssa.Function) (vc *VC) {
 		if e.noSwallowActive(fc) {
 			f.noSwallowAt(rst, r)
 		}
+		if f.lockBal {
+			if g, ok := rst.ghost[lockDepthGhost]; ok {
+				st2 := rst.clone()
+				f.oblige(st2, "lockbalanced", "every lock taken is released on this exit", eq(g.T, "0"), r.instr.Pos())
+			}
+		}
 	}
 	e.finishVC(vc, f)
 	return vc
+}
+
+// lockbalanced: ghost counter of sync locks taken minus released.
+const lockDepthGhost = "lockDepth"
+
+const lockBalInvText = "lockbalanced: every iteration releases the locks it takes"
+
+func (e *Engine) lockBalancedActive(fc *FuncC) bool {
+	return fc != nil && fc.LockBalanced && e.clauseActive(&Clause{Tags: fc.LockBalancedTags})
+}
+
+// lockDelta: +1 for a call that takes a sync lock, -1 for one that releases it.
+func lockDelta(name string) int {
+	if !strings.Contains(name, "sync.") {
+		return 0
+	}
+	switch {
+	case strings.HasSuffix(name, ").Lock"), strings.HasSuffix(name, ").RLock"):
+		return 1
+	case strings.HasSuffix(name, ").Unlock"), strings.HasSuffix(name, ").RUnlock"):
+		return -1
+	}
+	return 0
+}
+
+func (f *frame) lockTrack(name string, st *bstate) {
+	if !f.lockBal || !f.top {
+		return
+	}
+	d := lockDelta(name)
+	g, ok := st.ghost[lockDepthGhost]
+	if d == 0 || !ok {
+		return
+	}
+	g.T = f.vc.define("ghost."+lockDepthGhost, "Int", fmt.Sprintf("(+ %s %s)", g.T, intLit(int64(d))))
+	st.ghost[lockDepthGhost] = g
 }
 
 // noswallow: the ghost noswallowErr is set when a call of the function returns
